@@ -145,17 +145,20 @@ class JsonCodeGen(IntermediateCodeGen):
 
                 modData[object_oid].append(module)
 
-            if modData:
-                unique_prefixes = {}
-                for oid in sorted(modData, key=lambda x: x.count('.')):
-                    for oid_prefix, modules in unique_prefixes.items():
-                        if ((oid == oid_prefix or oid.startswith(oid_prefix + '.')) and
-                                set(modules).issuperset(modData[oid])):
-                            break
-                    else:
-                        unique_prefixes[oid] = modData[oid]
+        # reduce to the shortest prefixes once all modules are merged in, so
+        # that the outcome does not depend on the order of processing
+        modData = outDict['oids']
+        if modData:
+            unique_prefixes = {}
+            for oid in sorted(modData, key=lambda x: x.count('.')):
+                for oid_prefix, modules in unique_prefixes.items():
+                    if ((oid == oid_prefix or oid.startswith(oid_prefix + '.')) and
+                            set(modules).issuperset(modData[oid])):
+                        break
+                else:
+                    unique_prefixes[oid] = modData[oid]
 
-                outDict['oids'] = unique_prefixes
+            outDict['oids'] = unique_prefixes
 
         if 'comments' in kwargs:
             outDict['meta']['comments'] = kwargs['comments']
